@@ -142,6 +142,51 @@ async fn audit(a: &Addr<NamingActor>) -> String {
     format!("{} insts={}", d, all_instances(a).await)
 }
 
+/// the registry's snapshot records (`NamingActor::build_snapshot` through the real snapshot writer and reader)
+async fn snapshot_records(a: &Addr<NamingActor>) -> Result<Vec<rnacos::raft::filestore::model::SnapshotRecordDto>, String> {
+    use rnacos::raft::filestore::raftapply::RaftApplyDataRequest;
+    use rnacos::raft::filestore::raftsnapshot::{SnapshotReader, SnapshotWriterActor, SnapshotWriterRequest};
+    let dir = tempfile::tempdir().map_err(|e| e.to_string())?;
+    let path = dir.path().join("snap").to_string_lossy().to_string();
+    let header = rnacos::raft::filestore::model::SnapshotHeaderDto { last_index: 1, last_term: 1, member: vec![1], member_after_consensus: vec![], node_addrs: Default::default() };
+    let writer = SnapshotWriterActor::new(Arc::new(path.clone()), header).start();
+    match a.send(RaftApplyDataRequest::BuildSnapshot(writer.clone())).await {
+        Ok(Ok(_)) => {}
+        _ => return Err("build".to_string()),
+    }
+    // the writer answers `Flush` before the flush has run (it is queued as a `wait` future): the answer to a second one
+    // arrives only after the first has completed
+    if !matches!(writer.send(SnapshotWriterRequest::Flush).await, Ok(Ok(_))) || !matches!(writer.send(SnapshotWriterRequest::Flush).await, Ok(Ok(_))) {
+        return Err("flush".to_string());
+    }
+    let mut recs = vec![];
+    let mut reader = SnapshotReader::init(&path).await.map_err(|e| e.to_string())?;
+    while let Ok(Some(r)) = reader.read_record().await {
+        recs.push(r);
+    }
+    Ok(recs)
+}
+
+fn show_record(r: &rnacos::raft::filestore::model::SnapshotRecordDto) -> String {
+    use quick_protobuf::BytesReader;
+    let mut reader = BytesReader::from_bytes(&r.value);
+    match reader.read_message::<rnacos::common::pb::data_object::InstanceDo>(&r.value) {
+        Ok(d) => format!(
+            "{}|{}|{}@{}:{}:w{}:e{}:h{}:p{}",
+            if d.namespace_id.is_empty() { "-".to_string() } else { d.namespace_id.to_string() },
+            d.group_name,
+            d.service_name,
+            d.ip,
+            d.port,
+            (d.weight * 1000.0).round() as i64,
+            d.enabled as u8,
+            d.healthy as u8,
+            (!d.ephemeral) as u8
+        ),
+        Err(_) => "undecodable".to_string(),
+    }
+}
+
 pub fn run() {
     let setter = clock_setter();
     let sys = actix_rt::System::new();
@@ -168,8 +213,39 @@ pub fn run() {
             unsafe { (setter.unwrap())(BASE + now) };
         }
         let a = actor.clone();
+        // the registry is replaced by a fresh one that loads the snapshot of the current one (what a restart does)
+        if ws.first().copied() == Some("reload") {
+            let (fresh, out) = sys.block_on(async {
+                use rnacos::raft::filestore::raftapply::RaftApplyDataRequest;
+                match snapshot_records(&a).await {
+                    Err(e) => (None, format!("err {}", e)),
+                    Ok(recs) => {
+                        let fresh = NamingActor::new().start();
+                        let mut ok = true;
+                        for r in recs {
+                            ok &= matches!(fresh.send(RaftApplyDataRequest::LoadSnapshotRecord(r)).await, Ok(Ok(_)));
+                        }
+                        ok &= matches!(fresh.send(RaftApplyDataRequest::LoadCompleted).await, Ok(Ok(_)));
+                        (Some(fresh), if ok { "ok".to_string() } else { "err load".to_string() })
+                    }
+                }
+            });
+            if let Some(f) = fresh {
+                actor = f;
+                started = std::time::Instant::now();
+            }
+            return out;
+        }
         sys.block_on(async {
             match ws.first().copied() {
+                Some("snap") => match snapshot_records(&a).await {
+                    Ok(recs) => {
+                        let mut v: Vec<String> = recs.iter().map(show_record).collect();
+                        v.sort();
+                        format!("snap {}", if v.is_empty() { "-".to_string() } else { v.join(",") })
+                    }
+                    Err(e) => format!("err {}", e),
+                },
                 Some("upd") => {
                     let inst = instance_of(&ws[1..]);
                     let tag = tag_of(kv(&ws, "tag"));
